@@ -12,6 +12,7 @@
 //!   ltxt ver infodefs fmtdefs ns hextext ftab     arbitrary line text through both readers (see c09_line.rs)
 //!   multi ver infodefs fmtdefs ns rec^rec^.. ftab  records of one file read into reused buffers vs the single-line model
 //!   eloop ver infodefs fmtdefs ns hextext ftab     arbitrary bytes through read_record_buf into ONE RecordBuf, going on after Err, vs NV.Vcf.EagerLoop
+//!   lloop ver infodefs fmtdefs ns hextext ftab     arbitrary bytes through read_record into ONE lazy Record, going on after Err, vs NV.Vcf.LazyLoop
 //!   lzb  ver infodefs fmtdefs ns hextext ftab      arbitrary bytes through read_record + every accessor vs NV.Vcf.LazyRec
 //!   hw spec valid / hp hexlines                   headers against NV.Vcf.Header (see c09_hdr.rs)
 //! Implementation-only oracles (obs "-"):
@@ -531,6 +532,7 @@ fn run(c: &Case) -> Obs {
         "multi" => line::run_multi(c),
         "lzb" => line::run_lzb(c),
         "eloop" => line::run_eloop(c),
+        "lloop" => line::run_lloop(c),
         "file" => file::run_file(c),
         "ftxt" => file::run_ftxt(c),
         "rec" => rec::run_rec(c),
@@ -569,6 +571,8 @@ fn generate(rng: &mut Rng, tier: &str, w: &mut CaseWriter) {
     file::gen_ftxt(rng, w, if thorough { 3000 } else { 250 });
     // the eager loop, every call kept, against NV.Vcf.EagerLoop (arbitrary bytes)
     line::gen_eloop(rng, w, if thorough { 4000 } else { 400 });
+    // the lazy loop, every call kept, against NV.Vcf.LazyLoop (arbitrary bytes)
+    line::gen_lloop(rng, w, if thorough { 4000 } else { 400 });
 }
 
 fn main() {
